@@ -474,7 +474,10 @@ func (am *AppMapper) MapType(t *sysl.Type) *Type {
 		simpleType = "enum"
 		enum = make(map[int64]string)
 		for str, index := range t.GetEnum().GetItems() {
-			enum[index] = str
+			// two names may stand for one value: keep the first in name order, whatever order the map is walked in
+			if prev, seen := enum[index]; !seen || str < prev {
+				enum[index] = str
+			}
 		}
 	case *sysl.Type_Set:
 		simpleType = "set"
